@@ -10,8 +10,6 @@ Lemma alphabet_sym_ok : forallb sym_ok alphabet = true.
 Proof. vm_compute. reflexivity. Qed.
 Lemma alphabet_tables_agree : forallb tables_agree alphabet = true.
 Proof. vm_compute. reflexivity. Qed.
-Lemma trans_keys : length COMPLEMENT_TRANS = length alphabet /\ length COMPLEMENT_ALL = length alphabet.
-Proof. vm_compute. split; reflexivity. Qed.
 
 Lemma has_In c s : has c s = true <-> In c s.
 Proof.
